@@ -1959,6 +1959,10 @@ class Interp:
                 else:
                     conv.append(a)
             args = conv
+        if parts[0] in ('datetime', 're', 'decimal') and any(isinstance(a, Rec) and isinstance(a.f.get('cls'), str)
+                                                             for a in list(args) + list(kwargs.values())):
+            # these C-level constructors / functions type-check their arguments: an instance of a package class is a TypeError
+            raise ExcRaised(Ref('builtin:TypeError'))
         if not all(_concrete(a) for a in args) or not all(_concrete(v) for v in kwargs.values()):
             return False, None
         obj = _PURE_LIBS[parts[0]]
